@@ -74,7 +74,7 @@ class P:
                 elif k < 0.8:
                     mem.append(esc(a) + b"-" + esc(b))
                 elif k < 0.87:
-                    mem.append(rnd.choice([b"[:alpha:]", b"[:digit:]", b"[:punct:]", b"[:space:]"]))
+                    mem.append(rnd.choice([b"[:alpha:]", b"[:digit:]", b"[:punct:]", b"[:space:]", b"[:alpha:]", b"[:digit:]", b"[:^alpha:]", b"[:^digit:]", b"[:nope:]", b"[:^:]", b"[:word:]"]))
                 elif k < 0.93:
                     # collating symbols and equivalence classes: a single character stands for itself (also as a range end),
                     # anything else is rejected; their text never reaches the regular expression unescaped
